@@ -18,7 +18,8 @@ from vlib import Obl
 LEVEL = "model_checking"
 FUNCTIONS = ["rtosc_match_number", "rtosc_match_options", "rtosc_match_path", "rtosc_match_args", "rtosc_match",
              "rtosc_argument_string"]
-TRUSTED = ["CBMC 6.11.0 (goto-cc, goto-instrument --dfcc, cbmc; built-in SAT back end), its models of isdigit, atoi/strtol, malloc",
+TRUSTED = ["CBMC 6.11.0 (goto-cc, goto-instrument --dfcc, cbmc; built-in SAT back ends: MiniSat, and CaDiCaL for the rtosc_match_path "
+           "proof), its models of isdigit, atoi/strtol, malloc",
            "spec/pattern_spec.h (executable pattern language, written from the property statement and doc/Guide.adoc; "
            "cross-checked natively against an independent recursive matcher on 2e9 pattern/message pairs)",
            "x86-64 LP64 bit-vector semantics; shipped flags -DNDEBUG (asserts compiled out)"]
@@ -32,8 +33,9 @@ ASSUMPTIONS = [
     "%d (thorough) bytes only and is ASSUMED beyond that in the rtosc_match_path proof" % (OPT_N["quick"], OPT_N["thorough"]),
     "rtosc_match_args is recursive over the type alternatives: bounded obligations only",
     "bounded obligations: patterns are the concrete strings enumerated by props/C05.py (wf_pattern holds, checked in the harness); "
-    "per obligation the address length is fixed, every address byte is symbolic over all bytes a pattern's literal text can spell "
-    "(printable ASCII without space # * , : ? [ ] { }), the type tag string is 0..3 arbitrary non-NUL bytes, the bytes behind it are arbitrary",
+    "per obligation the address length is fixed, every address byte is symbolic over ALL non-NUL bytes except ':' (addresses with ':' "
+    "have their own obligations C05.match.colon.* / C05.colon_addr.*), the type tag string is 0..3 arbitrary non-NUL bytes, the bytes "
+    "behind it are arbitrary",
     "address not empty when the pattern has type alternatives (rtosc_argument_string: assert(msg && *msg))",
     "spec reading: alternatives with backtracking; an index is the maximal digit run; '/' that is not last is literal text; patterns "
     "where an alternative that is empty or starts with a digit directly follows #N are not well-formed (statement ambiguous there); "
@@ -150,7 +152,7 @@ def _elements(path):
     return len(re.sub(r"\{[^}]*\}|#\d+", "X", path))
 
 
-def unwind_flags(pats, al):
+def unwind_flags(pats, al, whole=False):
     """per-loop bounds (= most back-edge takes on the unchanged code + 1). Without them the recursion of rtosc_match_args
     and the loops of functions a pattern never reaches are unwound to the global bound behind symbolic cursors
     (measured: 450 s instead of 3 s for a batch of {..} patterns). Every bound is guarded by --unwinding-assertions."""
@@ -173,7 +175,8 @@ def unwind_flags(pats, al):
         "rtosc_argument_string.0": al + 1 if typed else 1,
         "rtosc_argument_string.1": 5 if typed else 1,
         "rtosc_match_path.0": 1, "rtosc_match_path.1": 1,
-        "rtosc_match_path.2": max(_elements(q) for q in paths) + 1,
+        # whole: the address may spell the ':types' text too (colon-in-address), the path loop then walks the whole pattern
+        "rtosc_match_path.2": max(_elements(p if whole else q) for p, q in zip(pats, paths)) + 1,
         "rtosc_match_options.0": gsum + 1 if has_o else 1,        # while(1): one take per spelled character
         "rtosc_match_options.1": grp + 1 if has_o else 1,         # skip to '}'
         "rtosc_match_options.2": galt + 1 if has_o else 1,        # skip the rest of one alternative
@@ -182,7 +185,7 @@ def unwind_flags(pats, al):
         "rtosc_match_number.1": al + 1 if has_e else 1,
         "strtol.0": max(ndig, al) + 2 if has_e else 1,
     }
-    glob = max(plen + 3, al + 3, 14)
+    glob = max(plen + 3, al + 3, len(pats) + 2, 14)
     return ["--unwind", str(glob), "--unwindset", ",".join("%s:%d" % kv for kv in sorted(us.items())),
             "--unwinding-assertions", "--drop-unused-functions"]
 
@@ -223,10 +226,15 @@ def proof_obligations(ctx):
             assumed=["atoi"], instr=nm, timeout=600),
         Obl("C05.rtosc_match_number.canary", "C05", P, entry="h_match_number", enforce="rtosc_match_number",
             replace=["atoi"], loops=True, defines={"DISPATCH_C": inj}, instr=nm, timeout=600, canary=True),
+        # CaDiCaL: 266 s where MiniSat needed 580 s (same machine load); 6.7 GB
         Obl("C05.rtosc_match_path.contract", "C05", P, entry="h_match_path", enforce="rtosc_match_path",
             replace=["rtosc_match_options", "rtosc_match_number"], loops=True, defines={"DISPATCH_C": inj}, termination=True,
-            functions=["rtosc_match_path"], instr=nm, timeout=1500,
+            functions=["rtosc_match_path"], instr=nm, timeout=2400, mem_gb=12, cbmc=["--sat-solver", "cadical"],
+            note="SAT back end: CaDiCaL (--sat-solver cadical)",
             assumed=["rtosc_match_options beyond %d-byte strings" % n]),
+        Obl("C05.rtosc_match_path.canary", "C05", P, entry="h_match_path", enforce="rtosc_match_path", canary=True,
+            replace=["rtosc_match_options", "rtosc_match_number"], loops=True, defines={"DISPATCH_C": inj},
+            instr=nm, timeout=2400, mem_gb=12, cbmc=["--sat-solver", "cadical"]),
         Obl("C05.rtosc_match_options.contract", "C05", P, termination=True, functions=["rtosc_match_options"],
             cbmc=["--unwind", str(n + 1), "--unwinding-assertions"], **opt),
         Obl("C05.rtosc_match_options.canary", "C05", P, canary=True, cbmc=["--unwind", str(n + 1)], **opt),
@@ -272,44 +280,49 @@ def match_obligations(ctx, normal, kfs):
                                 bound="patterns with a prefix alternative x every address of %d bytes x every type string of 0..3 tags%s"
                                       % (al, "" if part == 0 else "; only the prefix-alternative signature is asserted"),
                                 cbmc=unwind_flags(b, al), timeout=900, case={"patterns": b, "address_length": al}))
-    colon = [p for p in normal if ":" in p and len(p) <= 8][:BATCH] + ["a:i", "a#2:i:f"]
-    colon = list(dict.fromkeys(colon))
+    ctyped = list(dict.fromkeys([p for p in normal if ":" in p and len(p) <= 8][:BATCH] + ["a:i", "a#2:i:f"]))
+    cplain = ["a", "a/", "{a,b}", "#2", "a{a,b}/"]
     for al in ([2, 3, 4] if ctx.tier == "quick" else [1, 2, 3, 4, 5]):
-        for part in (0, 1):
-            d = dict(src_defines(ctx), C05_PATS=",".join(cstr(p) for p in colon), C05_NPAT=str(len(colon)), C05_AL=str(al),
-                     C05_COLON="1", C05_PART=str(part))
-            name = ("C05.match.colon.al%d" if part == 0 else "C05.colon_addr.al%d") % al
-            obls.append(Obl(name, "C05", H, entry="h_match_eq", defines=d, mode="bounded",
-                            bound="typed patterns x every address of %d bytes that contains ':' x every type string of 0..3 tags%s"
-                                  % (al, "" if part == 0 else "; only the colon-in-address signature is asserted"),
-                            cbmc=unwind_flags(colon, al), timeout=900, case={"patterns": colon, "address_length": al}))
+        for nm, colon, parts in (("", ctyped, (0, 1)), (".plain", cplain, (0,))):
+            for part in parts:
+                d = dict(src_defines(ctx), C05_PATS=",".join(cstr(p) for p in colon), C05_NPAT=str(len(colon)), C05_AL=str(al),
+                         C05_COLON="1", C05_PART=str(part))
+                name = ("C05.match.colon%s.al%d" if part == 0 else "C05.colon_addr%s.al%d") % (nm, al)
+                obls.append(Obl(name, "C05", H, entry="h_match_eq", defines=d, mode="bounded",
+                                bound="%s patterns x every address of %d bytes that contains ':' x every type string of 0..3 tags%s"
+                                      % ("untyped" if nm else "typed", al,
+                                         "" if part == 0 else "; only the colon-in-address signature is asserted"),
+                                cbmc=unwind_flags(colon, al, whole=True), timeout=900,
+                                case={"patterns": colon, "address_length": al}))
     return obls
 
 
 def index_obligations(ctx):
     H = "harness/C05/index.c"
     if ctx.tier == "quick":
-        digs = [(1, 1), (1, 2), (2, 1), (2, 2), (2, 3), (3, 2), (4, 4), (9, 9), (9, 1), (1, 9), (8, 9)]
+        ns = ["1", "2", "10", "16", "007", "1000", "999999999", "123456789"]
         shapes = [("x", "", 0), ("x", "/", 2), ("", "y", 1), ("x", ":i", 0)]
     else:
-        digs = [(a, b) for a in range(1, 10) for b in range(1, 10)]
+        ns = ["0", "1", "2", "9", "10", "16", "99", "100", "007", "128", "1000", "65536", "1000000", "99999999", "100000000",
+              "999999999", "123456789", "000000001"]
         shapes = [("x", "", 0), ("x", "", 1), ("x", "/", 1), ("x", "/", 2), ("", "y", 1), ("x", "y", 2), ("x", ":i", 0),
                   ("", "/:i:", 2), ("x", "{a,b}", 1)]
     obls = []
-    for nd, md in digs:
-        for pre, psuf, sl in shapes:
-            pat = pre + "#" + "9" * nd + psuf
-            al = len(pre) + md + sl
-            d = dict(src_defines(ctx), C05_PRE=cstr(pre), C05_PSUF=cstr(psuf), C05_ND=str(nd), C05_MD=str(md), C05_SL=str(sl))
-            obls.append(Obl("C05.index.n%d_m%d.%s" % (nd, md, key(pre + "#" + psuf) + "+%d" % sl), "C05", H, entry="h_index",
-                            defines=d, mode="bounded",
-                            bound="pattern %s#N%s, N of %d symbolic digits, index of %d symbolic digits, %d more address bytes"
-                                  % (pre, psuf, nd, md, sl),
-                            cbmc=unwind_flags([pat], al), timeout=900,
-                            case={"shape": pre + "#N" + psuf, "digits_N": nd, "digits_index": md}))
+    for n in ns:
+        mds = sorted(set(m for m in (len(n) - 1, len(n), len(n) + 1, 9) if 1 <= m <= 9)) if ctx.tier == "quick" else range(1, 10)
+        for md in mds:
+            for pre, psuf, sl in shapes:
+                pat = pre + "#" + n + psuf
+                al = len(pre) + md + sl
+                d = dict(src_defines(ctx), C05_PAT=cstr(pat), C05_PRE_L=str(len(pre)), C05_MD=str(md), C05_SL=str(sl))
+                obls.append(Obl("C05.index.%s.m%d+%d" % (key(pat), md, sl), "C05", H, entry="h_index", defines=d, mode="bounded",
+                                bound="pattern %s, every index of exactly %d digits, %d more arbitrary address bytes, "
+                                      "every type string of 0..2 tags" % (pat, md, sl),
+                                cbmc=unwind_flags([pat], al), timeout=900,
+                                case={"pattern": pat, "digits_index": md, "address_bytes_after_index": sl}))
     obls.append(Obl("C05.index.canary", "C05", H, entry="h_index", canary=True, mode="bounded", bound="canary",
-                    defines=dict(src_defines(ctx), C05_PRE=cstr("x"), C05_PSUF=cstr(""), C05_ND="2", C05_MD="2", C05_SL="0"),
-                    cbmc=unwind_flags(["x#99"], 3), timeout=300))
+                    defines=dict(src_defines(ctx), C05_PAT=cstr("x#16"), C05_PRE_L="1", C05_MD="2", C05_SL="0"),
+                    cbmc=unwind_flags(["x#16"], 3), timeout=300))
     return obls
 
 
